@@ -62,6 +62,11 @@ type Contract struct {
 	Modifies     []ModItem
 	HasModifies  bool
 	Loops        map[int]*LoopAnn
+	Walks        map[int]*LoopAnn // invariants of the implicit loops of collections' Walk calls, by ordinal
+	WalkLen      string           // trusted Walk spec: enumeration length function,
+	WalkAt       string           // i-th key function,
+	WalkSet      Expr             // the key set (membership array) they enumerate,
+	WalkVal      Expr             // and, for maps, the stored value of key `wkey`
 	Trusted      bool // assumed (external or interface-level trusted)
 	Src          string
 	Swallows     []string
@@ -148,7 +153,7 @@ func normKey(k string) string {
 var clauseKw = map[string]bool{
 	"func": true, "spec": true, "requires": true, "ensures": true, "modifies": true, "loop": true,
 	"panics-unless": true, "macro": true, "ghost": true, "axiom": true, "swallows": true,
-	"noinline": true, "opaque": true, "havoc": true, "pure-verdict": true, "pure-result": true, "counts": true, "sets": true, "sets-post": true, "implementers": true, "let": true, "letold": true, "smt": true, "lemma": true,
+	"noinline": true, "opaque": true, "havoc": true, "walk": true, "walks": true, "pure-verdict": true, "pure-result": true, "counts": true, "sets": true, "sets-post": true, "implementers": true, "let": true, "letold": true, "smt": true, "lemma": true,
 }
 
 type rawItem struct {
@@ -387,6 +392,63 @@ func (db *SpecDB) loadItems(items []rawItem, pkgPath string, trusted bool) {
 				la.Invs = append(la.Invs, &Clause{Kind: "invariant", Tags: tags, Text: text, E: e, Src: it.src})
 			default:
 				fail(it, "unknown loop clause %q", after)
+			}
+		case "walk":
+			// walk N invariant[tags] formula
+			if cur == nil {
+				fail(it, "walk outside contract")
+				continue
+			}
+			f := strings.Fields(rest)
+			n, err := strconv.Atoi(f[0])
+			if err != nil || len(f) < 2 {
+				fail(it, "bad walk clause")
+				continue
+			}
+			after := strings.TrimSpace(strings.TrimPrefix(rest, f[0]))
+			if !strings.HasPrefix(after, "invariant") {
+				fail(it, "unknown walk clause %q", after)
+				continue
+			}
+			tags, text := parseTags(strings.TrimPrefix(after, "invariant"))
+			e, err := parseExpr(text)
+			if err != nil {
+				fail(it, "%v", err)
+				continue
+			}
+			if cur.Walks == nil {
+				cur.Walks = map[int]*LoopAnn{}
+			}
+			if cur.Walks[n] == nil {
+				cur.Walks[n] = &LoopAnn{}
+			}
+			cur.Walks[n].Invs = append(cur.Walks[n].Invs, &Clause{Kind: "walk-invariant", Tags: tags, Text: text, E: e, Src: it.src})
+		case "walks":
+			// walks lenFn atFn :: setExpr [:: valueExpr]
+			if cur == nil {
+				fail(it, "walks outside spec")
+				continue
+			}
+			parts := strings.Split(rest, "::")
+			f := strings.Fields(parts[0])
+			if len(f) != 2 || len(parts) < 2 {
+				fail(it, "bad walks clause")
+				continue
+			}
+			cur.WalkLen, cur.WalkAt = f[0], f[1]
+			e, err := parseExpr(strings.TrimSpace(parts[1]))
+			if err != nil {
+				fail(it, "%v", err)
+				continue
+			}
+			cur.WalkSet = e
+			if len(parts) > 2 {
+				e2, err := parseExpr(strings.TrimSpace(parts[2]))
+				if err != nil {
+					fail(it, "%v", err)
+					continue
+				}
+				cur.WalkVal = e2
 			}
 		case "swallows":
 			if cur != nil {
